@@ -1,4 +1,4 @@
 import SSVerif.Props.C18Swap
-open SSVerif.FeSwap
+open SSVerif.C18Swap
 #print axioms C18_sample_paths_swap_exactly_once
 #print axioms C18_sample_path_table_complete
